@@ -48,7 +48,21 @@ def app(op, *a, sort="Int"):
 def t_not(a):
     if a.c is not None:
         return B(not a.c)
+    if a.s.startswith("(not ") and a.s.endswith(")") and _balanced(a.s[5:-1]):
+        return T(a.s[5:-1], "Bool")
     return app("not", a, sort="Bool")
+
+
+def _balanced(x):
+    d = 0
+    for ch in x:
+        if ch == "(":
+            d += 1
+        elif ch == ")":
+            d -= 1
+            if d < 0:
+                return False
+    return d == 0
 
 
 def t_and(a, b):
@@ -386,6 +400,8 @@ class Ctx:
         self.functions_seen = set()
         self.model = None
         self.max_unroll = 0
+        self.prune = None
+        self.pruned = 0
         self.auto_inline = False
 
     def fresh_value(self, name, ty):
@@ -441,6 +457,13 @@ class Ctx:
             term = stmts[-1]
             tag = "%s:bb%d" % (fn.name.split("::")[-1], bb)
             p.trace.append(tag)
+            if self.prune is not None and p.trace.count(tag) > getattr(p, "prune_level", 1):
+                # a block is entered again (loop back-edge): ask whether the path is still feasible; an infeasible path is dropped —
+                # it contributes no behaviour (sound only because the callback answers False on a solver's `unsat`, never on doubt)
+                p.prune_level = p.trace.count(tag)
+                if not self.prune(p):
+                    self.pruned += 1
+                    return
             if self.max_unroll and p.trace.count(tag) > self.max_unroll:
                 # unwinding assertion: this path must be infeasible, otherwise the bound is too small
                 p.obligations.append((list(p.pc), B(False), "unwinding bound %d exceeded at %s" % (self.max_unroll, tag)))
@@ -485,6 +508,7 @@ class Ctx:
                     raise Unsupported("switchInt on non-scalar: " + term)
                 taken_any = False
                 neg = []
+                known = {x.s for x in p.pc}
                 for k, t in targets:
                     if isinstance(v, DiscT) and k in (0, 1):
                         c = v.cond if k == 1 else t_not(v.cond)
@@ -492,6 +516,11 @@ class Ctx:
                         c = t_not(v) if k == 0 else v
                     else:
                         c = cmp("=", v, I(k))
+                    # a condition this path has already decided (syntactically the same term) is not forked on again
+                    if c.c is None and c.s in known:
+                        c = B(True)
+                    elif c.c is None and t_not(c).s in known:
+                        c = B(False)
                     neg.append(t_not(c))
                     if c.c is False:
                         continue
@@ -677,6 +706,8 @@ class Ctx:
                     v = Opaque("deref:" + v.name)
                 elif isinstance(v, Variant):
                     pass        # a modelled smart-pointer target (e.g. the content of a RefCell): already the value
+                elif isinstance(v, (T, Rec, VecV)) or type(v).__name__ in ("Obj",):
+                    pass        # a modelled value handed out "by reference" by a model (e.g. an element of a modelled slice): already the value
                 else:
                     raise Unsupported("deref of non-reference")
             else:
